@@ -258,7 +258,7 @@ func runC16(tier string) int {
 	if tier == "thorough" {
 		base = nil
 		for _, c := range allCfgs() {
-			if c.Fmt == 0 {
+			if c.Fmt == 0 && c.Stub == c.Resets {
 				base = append(base, c)
 			}
 		}
@@ -607,8 +607,26 @@ func runC14E1(rep *Report, tier string) {
 		k = 3
 		pkgs = append(pkgs, scopeName2("pairs")...)
 	}
-	pkgs = append(pkgs, scopeImp(k, true)...)
+	for _, p := range scopeImp(k, true) {
+		// the alias modes that influence conflict resolution (the others only change spelling)
+		mode := ""
+		for _, t := range p.Ifaces[0].Tags {
+			if strings.HasPrefix(t, "impmode:") {
+				mode = t[8:]
+			}
+		}
+		if mode == "plain" || mode == "alias-clash" || mode == "alias-as-first" || tier == "thorough" {
+			pkgs = append(pkgs, p)
+		}
+	}
 	pkgs = append(pkgs, det14Pkgs()...)
+	// shapes whose single parameter type mentions three same-named packages, and the generic scope
+	// (it contains inputs the formatter rejects: a failed generation must not influence the next one
+	// in the same process)
+	for _, p := range scopeEmbed() {
+		pkgs = append(pkgs, p)
+	}
+	pkgs = append(pkgs, scopeGen()...)
 	cfgs := []Cfg{{Stub: true}, {Pkg: 2, Resets: true}}
 	work := workDir()
 	defer cleanup(work)
@@ -628,7 +646,7 @@ func runC14E1(rep *Report, tier string) {
 	for i, c := range cases {
 		reqs[i] = c.req(fx)
 		reqs[i].Repeat = 2
-		if c.Scope == "S-det" {
+		if c.Scope == "S-det" || c.Scope == "S-embed" {
 			reqs[i].Repeat = 40 // rare schedules / orders: many fresh generators in one process
 		}
 	}
